@@ -7,9 +7,20 @@ LEAN_DEPS = ['RvModel.Hand.Mixture', 'RvModel.Lemmas.C11', 'RvModel.Hand.Dispatc
 TRUSTED = ['hand model Hand/Mixture.lean over an abstract component family (tied by the correspondence run of props/cases_c11.py; '
            'lnF calls the generated Gen.logsumexp, drawIndex the generated cumsum/catflip)',
            'consistency f_k = exp(ln f_k) of the components is a hypothesis of the mixture theorems (proved per distribution in C02)']
-ASSUMPTIONS = ['components: Gaussian, Poisson, Bernoulli in the correspondence run; entropy macros and Categorical components not covered']
+ASSUMPTIONS = ['components in the correspondence run: Gaussian, Poisson, Bernoulli, and (parameter-dependent supports) Pareto, Uniform, '
+               'Categorical of different sizes; f32 moments with Laplace / Uniform / Exponential components',
+               'Entropy for Mixture<Gaussian>: hand model of the quadrature (break points, 16-point rule) compared with the implementation at the '
+               "implementation's own quad_bounds(); accuracy against -∫ f ln f judged only for modes in [-3,3] and widths within a factor 10 "
+               '(bound 6e-2; the unchanged rule is off by up to 0.7 for widely separated narrow components: recorded, not judged)',
+               'entropy macros of Mixture<Bernoulli/Categorical/Poisson> not covered here (C08)']
 N_GEN = {'quick': 0, 'thorough': 0}
 KNOWN = {'accepted_NaN_weight': ('Mixture.validate_weights', 'nan_weight'), 'draw_zero_weight': ('Mixture.draw', 'variate_zero')}
+
+
+# class of a failing case (first column of a FAIL line of cases_c11.py) -> Rust site
+SITE = {'cache': 'Mixture.set_weights', 'hist': 'Mixture.set_weights', 'pareto': 'Mixture.pdf', 'unif': 'Mixture.pdf', 'cat': 'Mixture.pmf',
+        'f32': 'Mixture.variance', 'gauss.entropy': 'Mixture.entropy', 'gauss.entropy.reference': 'Mixture.entropy',
+        'gauss.quad_bounds': 'Mixture.quad_bounds', 'set_weights': 'Mixture.set_weights', 'new': 'Mixture.new', 'combine': 'Mixture.combine'}
 
 
 def gen_ops(man):
@@ -26,10 +37,17 @@ def extra_run(man, tier, seed):
     ncases = int(m.group(1)) if m else 0
     m = re.search(r'mismatches beyond tolerance: (\d+)', out)
     nmis = int(m.group(1)) if m else -1
+    fail_lines = [l.split('\t') for l in out.split('\n') if l.startswith('FAIL\t')]
+    fail_lines = [f for f in fail_lines if len(f) >= 5]
     obligations = [{'name': 'corr:Mixture(hand model)', 'kind': 'corr', 'ok': nmis == 0 and ncases > 0, 'site': 'Mixture',
-                    'detail': '\n'.join(l for l in out.split('\n') if 'MISMATCH' in l or l.startswith('      '))[:900] or p.stderr[-300:],
-                    'cases': [{'line': l.strip()[:400], 'impl': '', 'model': ''} for l in out.split('\n') if l.startswith('      ') and 'mix.' in l][:3]}]
+                    'detail': '\n'.join(f'{f[1]}: {f[2][:300]} -> impl {f[3][:120]} expected {f[4][:160]}' for f in fail_lines[:4])[:1500]
+                              or p.stderr[-300:],
+                    'cases': [{'line': f[2][:2000], 'impl': f[3][:400], 'model': f[4][:400]} for f in fail_lines[:5]]}]
     failures = []
+    for f in fail_lines[:40]:
+        failures.append({'site': SITE.get(f[1]) or SITE.get(f[1].split('.')[0]) or 'Mixture.' + f[1],
+                         'case': f[2][:3000], 'impl': f[3][:600], 'expected': f[4][:600], 'observed': 'panic' if f[3] == 'PANIC' else 'value',
+                         'detail': f'{f[1]}: implementation answer differs from the model / definition', 'cls': f[1]})
     cur = None
     for l in out.split('\n'):
         mm = re.match(r'finding (\w+) (\d+)', l)
